@@ -1,5 +1,6 @@
 import JominiModel.Driver.Util
 import JominiModel.Model.TextReader
+import JominiModel.Spec.TextReader
 /-
 ops of property C07 (and the text-reader ops used by C09 / C20); formats in
 harness/src/props/c07.rs.
@@ -153,6 +154,7 @@ def handle : Handler
       let b ← b.toNat?
       pure (toString (countChunk (BitVec.ofNat 64 x) (UInt8.ofNat b)).toNat)
   | ["czb", v] => v.toNat?.map fun x => if containsZeroByte (BitVec.ofNat 64 x) then "1" else "0"
+  | ["tneed", h] => (parseHex h).map fun d => toString (Spec.need d)
   | ["tlex", h] => (parseHex h).map fun d =>
       let r := sliceTokens d
       s!"{joinToks (r.toks.map showTok)} {showOutcome r.out} {r.final.position}"
